@@ -321,6 +321,7 @@ Theo::Node *MVARGS(ParseState &ps) {
   if (ps.lookahead() != Theo::Token::ARGSEP) return NULL;
   ps.match(Theo::Token::ARGSEP);
   Node *v = VALUE(ps);
+  if (v == NULL) return NULL;  // no value after ',': error already recorded
   Node *m = MVARGS(ps);
   return ps.a.mk(Node::Type::SPLIT, v->line, v->file, "", v, m);
 }
